@@ -65,6 +65,12 @@ type token struct {
 	useStart int64
 	// statement-level log of accepted transfers of non-exempt senders (height, amount)
 	log []accepted
+	// configurations that were executed in a state branch that was never committed (discard.go),
+	// since the last committed configuration of the same kind. They are NOT the configuration: the
+	// oracle never looks at them; they only tell which later sends would have come out differently
+	// had the uncommitted configuration leaked (coverage counters, witness).
+	decoyTax *taxCfg
+	decoyLim *limCfg
 }
 
 type pend struct {
